@@ -63,6 +63,16 @@ pub fn exec(c: &[i64]) -> Vec<i64> {
             clients.push(s);
         }
     }
+    // optional 6th field: what the hydraulic units report about themselves before the request arrives
+    // (1 = motion locked, 2 = unlocked, 3 = locked with an error state): units that talk get their reset like silent ones
+    let hst = c.get(5).copied().unwrap_or(0);
+    if hst != 0 && !congested {
+        for (i, net) in nets.iter().enumerate() { for (_, p, da) in net { if *p == "hcu" {
+            let id = crate::units::id_of(6, 65288, 0, *da as u32) | 0x8000_0000;
+            let data = [if hst == 3 { 0xfa } else { 0x14 }, 0xff, if hst == 2 { 0 } else { 1 }, 0xff, 0, 0, 0, 0];
+            for _ in 0..2 { buses[i].inject(&raw_frame(id, 8, &data)); std::thread::sleep(Duration::from_millis(3)); }
+        } } }
+    }
     std::thread::sleep(Duration::from_millis(delay));
     if burst > 0 { if let Some(s) = clients.first_mut() {
         for j in 0..burst { let mut f = crate::session::header(0x20, 3); let v = (j as u16).to_be_bytes(); f.extend([5, v[0], v[1]]); let _ = s.write_all(&f); }
@@ -120,6 +130,7 @@ pub fn gen(o: &Opts, sink: &mut dyn FnMut(Vec<i64>, String)) {
         let nclients = (j / 4 % 4) as i64;
         let burst = if nclients > 0 && j % 3 == 0 { *rng.pick(&[10i64, 40, 200]) } else { 0 };
         let sig = if j % 5 == 4 { 2 } else { 15 };
-        sink(vec![cfg, delay, nclients, burst, sig], String::new());
+        let hst = [0i64, 1, 2, 1, 3][(j % 5) as usize];
+        sink(vec![cfg, delay, nclients, burst, sig, hst], String::new());
     }
 }
